@@ -230,3 +230,103 @@ theorem closed_loop_sender_success (sc : SCfg) (rc : RCfg) (lc : LoopCfgT sc rc)
   exact ph_sender_ok sc rc fl f _ (hrun fuel _ (Or.inl ⟨1, 0, ds, [], hg, hok⟩))
 
 end Tftp
+
+namespace Tftp
+
+/-! ### what the receiver has accepted, at every moment -/
+
+theorem rStep_fail_accepted (c : RCfg) (r : RState) : (rStep c r .fail).1.accepted = r.accepted := by
+  unfold rStep
+  split
+  · simp only
+    split <;> rfl
+  · rfl
+
+theorem netStep_accepted (sc : SCfg) (rc : RCfg) (fl : Faults) (st st' : NetState) (hs : netStep sc rc fl st = some st') :
+    st'.r.accepted = st.r.accepted ∨ (st.dq ≠ [] ∧ receiverRunning st.r = true) := by
+  obtain ⟨s, r, dq, aq, nd, na, tmo⟩ := st
+  cases dq with
+  | cons x rest =>
+    obtain ⟨n, d⟩ := x
+    simp only [netStep] at hs
+    split at hs
+    · rename_i hrun
+      right; exact ⟨by simp, hrun⟩
+    · simp at hs; rw [← hs]; left; rfl
+  | nil =>
+    left
+    cases aq with
+    | cons a rest =>
+      simp only [netStep] at hs
+      split at hs <;> (simp at hs; rw [← hs]) <;> rfl
+    | nil =>
+      simp only [netStep] at hs
+      split at hs
+      · simp at hs
+      · by_cases hrr : receiverRunning r = true <;> by_cases hsr : senderRunning s = true <;>
+          simp only [hrr, hsr, ↓reduceIte, Option.some.injEq, Bool.false_eq_true] at hs <;> rw [← hs]
+        all_goals first | exact rStep_fail_accepted rc r | rfl
+
+/-- what the receiver has accepted is a prefix of the file's blocks -/
+def RG (sc : SCfg) (f : Bytes) (st : NetState) : Prop := st.r.received = blocksUpTo sc.b f st.r.received.length
+
+theorem RG_of_accepted {sc : SCfg} {f : Bytes} {st st' : NetState} (h : RG sc f st) (he : st'.r.accepted = st.r.accepted) :
+    RG sc f st' := by
+  unfold RG RState.received at *
+  rw [he]; exact h
+
+theorem ph_step_good (sc : SCfg) (rc : RCfg) (lc : LoopCfgT sc rc) (fl : Faults) (f : Bytes) (st st' : NetState)
+    (h : Ph sc rc fl f st) (hg : RG sc f st) (hs : netStep sc rc fl st = some st') : RG sc f st' := by
+  rcases netStep_accepted sc rc fl st st' hs with he | ⟨hdq, hrun⟩
+  · exact RG_of_accepted hg he
+  · -- a DATA datagram reached a running receiver: only the running phase has that
+    rcases h with ⟨B, R, ds, ks, hgs, hok⟩ | ⟨B, ks, hf⟩ | hra | hsa | hd
+    · obtain ⟨s, r, dq, aq, nd, na, tmo⟩ := st
+      have hdq' : dq = ds.map (datum sc.b f) := hgs.dq_eq
+      have haq' : aq = ks.map (· % 65536) := hgs.aq_eq
+      subst hdq'; subst haq'
+      cases ds with
+      | nil => simp at hdq
+      | cons k ds' =>
+        obtain ⟨st'', h1, h2⟩ := gs_data sc rc lc fl f s r _ nd na tmo B R k ds' ks hgs
+        have heq : st'' = st' := by rw [h1] at hs; exact Option.some.inj hs
+        subst heq
+        rcases h2 with ⟨B', ks', hf⟩ | ⟨B', R', ds'', ks', h', _⟩
+        · exact hf.rgood
+        · unfold RG
+          rw [h'.rrecv, blocksUpTo_length]
+    · exfalso; simp [receiverRunning, hf.rok] at hrun
+    · exfalso; exact hdq hra.dq_nil
+    · exfalso; simp [receiverRunning, hsa.rfail] at hrun
+    · exfalso; have := hd.ended.2; rw [this] at hrun; cases hrun
+
+/-- **the accepted prefix, at every moment, for any length**: at every moment of every run of the closed loop, under
+every fault schedule and for every file length, what the receiving side has accepted so far is exactly blocks
+`1..j` of the sender's file, in order -/
+theorem closed_loop_accepted_prefix (sc : SCfg) (rc : RCfg) (lc : LoopCfgT sc rc) (fl : Faults) (f : Bytes) (fuel : Nat) :
+    (netRun sc rc fl fuel (netInit sc rc fl f)).r.received =
+      blocksUpTo sc.b f (netRun sc rc fl fuel (netInit sc rc fl f)).r.received.length := by
+  have hrun : ∀ (fuel : Nat) (st : NetState), Ph sc rc fl f st → RG sc f st →
+      Ph sc rc fl f (netRun sc rc fl fuel st) ∧ RG sc f (netRun sc rc fl fuel st) := by
+    intro fuel
+    induction fuel with
+    | zero => intro st h hg; exact ⟨h, hg⟩
+    | succ n ih =>
+      intro st h hg
+      simp only [netRun]
+      cases hs : netStep sc rc fl st with
+      | none => exact ⟨h, hg⟩
+      | some st' => exact ih st' (ph_step sc rc lc fl f st st' h hs) (ph_step_good sc rc lc fl f st st' h hg hs)
+  obtain ⟨ds, hgs⟩ := gs_init sc rc lc fl f
+  have hok : RetryOK (netInit sc rc fl f) := by
+    intro _
+    have : (netInit sc rc fl f).r = rInit rc := by unfold netInit emitData; rfl
+    rw [this]
+    show 0 < Gen.maxRetries
+    decide
+  have hg0 : RG sc f (netInit sc rc fl f) := by
+    unfold RG
+    rw [hgs.rrecv, blocksUpTo_length]
+  exact (hrun fuel _ (Or.inl ⟨1, 0, ds, [], hgs, hok⟩) hg0).2
+
+end Tftp
